@@ -119,28 +119,34 @@ func (r *Runner) prepare() error {
 	if err != nil {
 		t.Fatal(err)
 	}
-	var cases []struct {
-		ID string ` + "`json:\"id\"`" + `
-		vpReplayData
-	}
+	var cases []json.RawMessage
 	if err := json.Unmarshal(raw, &cases); err != nil {
 		t.Fatal(err)
 	}
-	for _, c := range cases {
-		cc := c
-		vpData = &cc.vpReplayData
-		vpFailures = nil
-		h := vpHarnesses[cc.Harness]
+	dir := t.TempDir()
+	for i, rc := range cases {
+		var c struct {
+			ID      string ` + "`json:\"id\"`" + `
+			Harness string ` + "`json:\"harness\"`" + `
+		}
+		json.Unmarshal(rc, &c)
+		caseFile := fmt.Sprintf("%s/case%d.json", dir, i)
+		failFile := fmt.Sprintf("%s/fail%d.txt", dir, i)
+		os.WriteFile(caseFile, rc, 0o644)
+		os.Setenv("VP_REPLAY_JSON", caseFile)
+		os.Setenv("VP_REPLAY_FAIL", failFile)
+		os.Setenv("VP_REPLAY_SEQ", fmt.Sprint(i+1))
+		h := vpHarnesses[c.Harness]
 		if h == nil {
-			fmt.Printf("VP-REPLAY: %s error unknown harness %s\n", cc.ID, cc.Harness)
+			fmt.Printf("VP-REPLAY: %s error unknown harness %s\n", c.ID, c.Harness)
 			continue
 		}
 		before := runtime.NumGoroutine()
-		fmt.Printf("VP-REPLAY-START: %s\n", cc.ID)
+		fmt.Printf("VP-REPLAY-START: %s\n", c.ID)
 		status := func() (s string) {
 			defer func() {
 				if r := recover(); r != nil {
-					if _, ok := r.(vpAssumeViolation); ok {
+					if r == "vp-assume-violated" {
 						s = "assume-violated"
 						return
 					}
@@ -148,14 +154,14 @@ func (r *Runner) prepare() error {
 				}
 			}()
 			h()
-			if len(vpFailures) > 0 {
-				return fmt.Sprintf("assert-failed %q", vpFailures)
+			if fails, err := os.ReadFile(failFile); err == nil && len(fails) > 0 {
+				return fmt.Sprintf("assert-failed %q", string(fails))
 			}
 			return "ok"
 		}()
 		if status == "ok" {
 			leaked := true
-			for i := 0; i < 40; i++ {
+			for k := 0; k < 40; k++ {
 				if runtime.NumGoroutine() <= before {
 					leaked = false
 					break
@@ -166,7 +172,7 @@ func (r *Runner) prepare() error {
 				status = fmt.Sprintf("leak %d goroutines still alive", runtime.NumGoroutine()-before)
 			}
 		}
-		fmt.Printf("VP-REPLAY: %s %s\n", cc.ID, status)
+		fmt.Printf("VP-REPLAY: %s %s\n", c.ID, status)
 	}
 }
 `)
